@@ -98,6 +98,10 @@ func hookServer() (string, error) {
 // StockFallback makes drivers built afterwards answer through cbreaker.NewResponseFallback (503).
 var StockFallback bool
 
+// FailingFallback makes the fallback handler of drivers built afterwards panic after it was
+// called (a buggy user handler): the request was handed to the fallback and to nobody else.
+var FailingFallback bool
+
 // Decoy makes New build a second, unrelated breaker (other durations) right after the one it
 // returns.
 var Decoy bool
@@ -188,9 +192,13 @@ func New(t Fataler, expr string, f, r, p time.Duration, phase time.Duration) *Dr
 		}
 		stock = rf
 	}
+	failing := FailingFallback
 	fb := http.HandlerFunc(func(w http.ResponseWriter, req *http.Request) {
 		d.Fallbacks++
 		w.Header().Set("X-Fallback", "1")
+		if failing { // a fallback handler with a bug of its own: the request is its business all the same
+			panic("verif: the fallback handler failed")
+		}
 		if stock != nil { // the breaker's stock response fallback does the answering
 			stock.ServeHTTP(w, req)
 			return
@@ -305,6 +313,13 @@ func (d *Driver) Start(headers ...string) (passed bool) {
 		d.InFlight = append(d.InFlight, &Flight{C: c, Started: d.Now})
 		d.logf("start->handler")
 		return true
+	}
+	if c.Panicked != nil && d.Fallbacks == before+1 && fmt.Sprint(c.Panicked) == "verif: the fallback handler failed" {
+		d.logf("start->fallback (which failed)")
+		return false
+	}
+	if c.Panicked != nil {
+		d.T.Fatalf("the breaker panicked on a request arriving at +%v: %v\n%s", d.Now, c.Panicked, d.History())
 	}
 	if d.Fallbacks == before+1 && c.Rec.Status() != http.StatusServiceUnavailable {
 		d.T.Fatalf("the %s request arriving at +%v was handed to the fallback (configured answer: 503) but the client got status %d\n%s", method, d.Now, c.Rec.Status(), d.History())
